@@ -102,6 +102,19 @@ func hostClient() {
 					say("RES %s ok", tok)
 				}
 			}()
+		case "subpend":
+			// a channel-returning call the fake peer never answers by itself: it stays in flight (2 s at most)
+			tok := f[1]
+			go func() {
+				ctx, cancel := context.WithTimeout(context.Background(), 2*time.Second)
+				defer cancel()
+				say("SUBPEND %s", tok)
+				ch, err := cl.SubInt(ctx, tok, Plan{})
+				if err == nil {
+					for range ch {
+					}
+				}
+			}()
 		case "sub":
 			tok := f[1]
 			go func() {
